@@ -28,3 +28,47 @@ chk("C09", "SCHED", "model_checking",
     "Sync-operation granularity; memory-model effects below that only via TSan (sampling). State-hash pruning cross-validated against un-hashed "
     "bounded exploration on every run. Trusts the scheduler shim (engines/sched/vs.c).",
     "stateless model checking with preemption bounding and state-hash pruning (CHESS style) on the real code", "2.2, 3/C09")
+
+ENGINES += [
+    dict(name="GEN+SQFSCK", path="vlib/treegen.py vlib/packcases.py vlib/sqfsck.py vlib/kmount.py", serves_properties=["C01", "C03", "C08", "C16", "C17"],
+         kind_free_text="bounded-exhaustive generators of tree specifications / configurations / 1-D boundary sweeps, independent SquashFS decoder+validator "
+                        "written from doc/format.adoc, kernel loop-mount cross-check"),
+    dict(name="ENV", path="engines/env/envwrap.c vlib/envrun.py vlib/envscn.py", serves_properties=["C11", "C12", "C13", "C14"],
+         kind_free_text="environment controller linked into the real tools with -Wl,--wrap: per-call-index short counts, EINTR, errors, NULL allocations, "
+                        "kill-before-output-call, readdir permutations; deviation-bounded enumeration over the call log of the undisturbed run"),
+]
+
+chk("C01", "GEN+SQFSCK", "exploration",
+    "Bounded-exhaustive input enumeration on the real gensquashfs (ASan): every tree that is a union of <=2 (quick) / <=3 (thorough) of 30 entry templates "
+    "x a covering set of configurations, as pack file and as real directory, plus exhaustive 1-D sweeps across every numeric boundary the property names "
+    "(entries per directory, file sizes x content classes x compressors, 65534..65537 ids, 510..514/1023..1025 xattr sets, hard-link groups, all inode types). "
+    "Oracle: independent decoder's tree == documented model; unrepresentable inputs refused without output; rdsquashfs cat/unpack agree; kernel mount agrees.",
+    "Small scope: interactions needing >3 templates are outside; boundaries are swept one dimension at a time. Trusts SQFSCK (cross-checked against the kernel each run) and the model of gensquashfs.1.",
+    "bounded exhaustive enumeration of inputs x configurations against an independent reference decoder", "3/C01")
+chk("C03", "GEN+SQFSCK", "exploration",
+    "Every image produced by the bounded-exhaustive generators (C01 trees x configurations, sweeps, incompressible data/metadata sweeps per compressor, tar inputs) "
+    "is decoded and checked against every MUST-level invariant of doc/format.adoc encoded in the validator.",
+    "Only rules the format document (or the kernel reader) states are enforced; SHOULD clauses are notes. Validator = vlib/sqfsck.py.",
+    "bounded exhaustive enumeration of inputs, invariant checked on every produced image", "3/C03")
+chk("C11", "ENV", "fault_enumeration",
+    "All tuples of per-directory permutations of readdir's answer are injected under the real gensquashfs for four trees (plain, hard links inside one directory, "
+    "hard links across directories, three directories sharing an inode) x 5..9 option sets; one image sha256 per (tree, options) is demanded.",
+    "readdir is the only source of host order; trees have <= 6 entries per directory (6! x 2! tuples).",
+    "exhaustive enumeration of environment answers (all readdir permutations) on the real tool", "3/C11")
+chk("C12", "ENV", "fault_enumeration",
+    "Deviation-bounded enumeration over the call log of the undisturbed run: every read/pread/write/pwrite call index x {short 1, half, n-1, EINTR} (bound 1), "
+    "global 1/7/511/513-byte transfer caps, bound 2 (all pairs across call classes) on the two smallest scenarios in the thorough tier, and real pipes with chunked "
+    "writers/readers, on 11 end-to-end scenarios of the four tools. Output bytes / unpacked tree and exit status must equal the undisturbed run.",
+    "-j 1 for a reproducible call sequence (verified by running the baseline twice); at most two deviations per run.",
+    "exhaustive single- and double-deviation fault enumeration over the syscall log of the real tools", "3/C12")
+chk("C13", "ENV", "fault_enumeration",
+    "Every call index k of every syscall class (write, pwrite, read, pread, ftruncate, open, lseek, fsync, dup, mmap) and every allocation made by project code is failed once per fault kind "
+    "in 11 end-to-end scenarios (absolute and relative output paths, --pack-dir). Oracle: no crash; exit!=0 + diagnostic + no output file at the path the user named, "
+    "or exit 0 with identical output. Violations are fingerprinted by the project function where the fault was injected (stack trace at the deviation point).",
+    "Serial block processor build so allocation indices replay; single faults only; library-internal allocations not failed.",
+    "exhaustive single-fault enumeration over the syscall/allocation log of the real tools", "3/C13")
+chk("C14", "ENV", "fault_enumeration",
+    "For each scenario and every k in 1..N+1 the packer is killed immediately before the k-th write/pwrite/ftruncate on the output file (all crash points between "
+    "consecutive output syscalls); rdsquashfs -d/-l, sqfs2tar and the independent decoder are applied to each leftover file: all reject, or all accept and the tree is complete.",
+    "Whole-syscall granularity as the property states; writes assumed to reach the file in program order.",
+    "exhaustive crash-point enumeration on the real packers", "3/C14")
